@@ -27,6 +27,11 @@ where
             let src = self.inner.fill_buf()?;
 
             if src.is_empty() {
+                // The underlying stream ended before `l_text` bytes were read.
+                if self.inner.get_ref().limit() > 0 {
+                    return Err(io::Error::from(io::ErrorKind::UnexpectedEof));
+                }
+
                 return Ok(n);
             }
 
